@@ -105,7 +105,7 @@ class Layout:
                             data = f.read()
                     except OSError:
                         continue
-                    hs = list(e['ck']) or ['SHA256']
+                    hs = list(e['ck']) or ([] if e.get('sizeonly') else ['SHA256'])
                     e['size'] = len(data)
                     e['ck'] = dict((h, fm.digest(h, data)) for h in hs)
             fp = os.path.join(root, mp)
@@ -302,7 +302,8 @@ def mutate(rng, L, root, kind=None, manifest_names=True):
             st = os.stat(fp)
             with open(fp, 'wb') as f:
                 f.write(data)
-            mt = rng.choice([st.st_mtime, fm.BASE_MTIME + 120, fm.BASE_MTIME + 30])
+            mt = rng.choice([st.st_mtime, fm.BASE_MTIME + 120, fm.BASE_MTIME + 30, fm.BASE_MTIME + 119.7,
+                             fm.BASE_MTIME + 119.7, fm.BASE_MTIME + 120.7, fm.BASE_MTIME + 119.2])
             os.utime(fp, (mt, mt))
             return {'m': kind, 'p': p}
     elif kind == 'alter_size':
